@@ -217,6 +217,8 @@ Proof.
   intros Hb Hp Hg Hn. unfold yank_pop. unfold bind at 1. cbn [get]. rewrite Hp.
   replace (Nat.ltb (blen l + blen old) (blen old)) with false by (symmetry; apply Nat.ltb_ge; lia).
   replace (blen l + blen old - blen old) with (blen l) by lia.
+  replace (is_boundary (buf b) (blen l)) with true by (unfold is_boundary; rewrite Hb, bsplit_app; reflexivity).
+  cbn [negb].
   unfold bind at 1. rewrite (LineBufferTotal.drain_ok b l old r DForward Hb).
   unfold bind at 1. cbn [put_pos].
   set (b1 := set_pos' (set_buf b (l ++ r)) (blen l)).
